@@ -29,6 +29,7 @@ type Loaded struct {
 	repoDir string
 	modRoot string
 	debugNames map[ssa.Value]string
+	regexGlobals map[string]string
 }
 
 const modulePath = "cuelabs.dev/go/oci/ociregistry"
@@ -81,6 +82,7 @@ func LoadPackages(patterns []string) (*Loaded, error) {
 	}
 	L.allFuncs = ssautil.AllFunctions(prog)
 	L.scanGlobals()
+	L.scanRegexGlobals()
 	return L, nil
 }
 
